@@ -334,7 +334,7 @@ def run(ctx):
         seen.add(key)
         verdict.add(key, w, {"kind": "failing-input", "ops": cases[i]["ops"][:ri + 1], "env": cases[i]["env"],
                              "observed": results[i][:ri + 1] if isinstance(results[i], list) else results[i]})
-    if not failing:
+    if not verdict.findings_with_input():
         if not proof["build_ok"]:
             verdict.add("proof-broken", "proof obligation of C19 no longer checks (%s) and no failing operation sequence was found among %d"
                         % (", ".join(proof.get("broken", [])), len(cases)),
